@@ -37,9 +37,17 @@ def note_expect(note, name, up):
     return {'model': model, 'known_wrong': known, 'natural_unspellable': abs(na) > 2, 'unspellable': abs(ea) > 2}
 
 
-def one(ctx: Ctx, cs, n_pairs=80):
+LONG = dict(measures=(12, 14), rows=(85, 95), max_spines=1, p_split=0.0, p_gcomment=0.0, p_fcomment=0.0, p_tandem=0.0, p_null_run=0.0, p_blank=0.0, p_bbox=0.0, p_midsig=0.0, empty_measures=0.0)
+
+
+def one(ctx: Ctx, cs, n_pairs=80, long=False):
     from ..monitors import pitchshadow
-    doc, pname = make_doc(cs, None, allow_nodur=False, p_sig=0.9)
+    if long:
+        # a score of more than 1000 lines (one spine): the size real scores have
+        doc, pname = make_doc(cs, 'kern_core', allow_nodur=False, p_sig=0.9, **LONG)
+        ctx.mon('long_documents')
+    else:
+        doc, pname = make_doc(cs, None, allow_nodur=False, p_sig=0.9)
     x = doc.text(0)
     ctx.ev()
     ctx.mon('documents')
@@ -69,7 +77,7 @@ def one(ctx: Ctx, cs, n_pairs=80):
     has_chord = any(c.kind == 'chord' for r in ag for c in r)
     for k_, (name, up) in enumerate(pairs):
         direction = 'up' if up else 'down'
-        case = {'case_seed': cs, 'text': x, 'interval': name, 'direction': direction}
+        case = {'case_seed': cs, 'text': x if len(x) < 20000 else x[:2000] + '...', 'interval': name, 'direction': direction, 'long': long}
         if k_ % 4 == 0:
             # a call that must be refused (unknown interval name / unknown direction) comes first: whatever it answers is only
             # counted - the transposition that follows must not be affected by it
@@ -215,6 +223,8 @@ def run(ctx: Ctx):
     n_docs, n_pairs = (28, 80) if ctx.tier == 'quick' else (150, 80)
     for cs in cases(ctx, 'c15', n_docs):
         one(ctx, cs, n_pairs)
+    for cs in cases(ctx, 'c15-long', 1 if ctx.tier == 'quick' else 2):
+        one(ctx, cs, 4, long=True)
     ctx.floors = {'transpositions': ('transpositions', 1000), 'core notes': ('core_notes_agree', 2000), 'round trips': ('round_trips', 800)}
     pitchshadow.uninstall()
 
@@ -223,6 +233,6 @@ def replay(ctx, w):
     from ..monitors import pitchshadow
     pitchshadow.install()
     case = w.get('case', w)
-    one(ctx, case['case_seed'])
+    one(ctx, case['case_seed'], long=case.get('long', False))
     print(case.get('text', ''))
     pitchshadow.uninstall()
